@@ -97,6 +97,19 @@ class Angle(EdgeData):
     def reverse(self) -> None:
         self.angle = -self.angle
 
+    def rotate(self, angle, axis, origin=None):
+        """Axis is a direction; it turns but is not carried around a remote origin"""
+        self.axis.rotate(angle, axis, [0, 0, 0])
+
+        return self
+
+    def mirror(self, normal, origin=None):
+        """A mirrored arc turns the other way around the mirrored axis"""
+        self.axis.mirror(normal, [0, 0, 0])
+        self.angle = -self.angle
+
+        return self
+
     def translate(self, displacement):
         """Axis is not to be translated"""
 
